@@ -125,6 +125,7 @@ class VirtualLoop(asyncio.SelectorEventLoop):
         self.next_port = 40000
         self.hosts: dict[str, str] = {}
         self.on_transport: Callable[[RecordingTransport], None] | None = None
+        self.open_latency: dict = {}      # local host ("0.0.0.0" / "::") -> virtual seconds it takes to open a socket there
         self.ipv6_available = True      # False: binding a "::" socket fails with EAFNOSUPPORT (host without IPv6)
         self.set_exception_handler(self._on_exception)
 
@@ -146,9 +147,9 @@ class VirtualLoop(asyncio.SelectorEventLoop):
                                        remote_addr: tuple | None = None, **kwargs: Any) -> tuple:
         # like a real loop, opening a socket suspends the caller twice: while the local address is resolved and while
         # waiting for connection_made; a cancellation may arrive at either point (at the second the socket is closed)
-        await asyncio.sleep(0)
-        protocol = protocol_factory()
         host, port = (local_addr or ("0.0.0.0", 0))[:2]
+        await asyncio.sleep(self.open_latency.get(host, 0))
+        protocol = protocol_factory()
         if ":" in host and not self.ipv6_available:
             raise OSError(97, "Address family not supported by protocol")
         if not port:
